@@ -11,6 +11,7 @@ import (
 	"go/token"
 	"os"
 	"strconv"
+	"strings"
 	"unicode"
 	"unicode/utf8"
 
@@ -168,9 +169,11 @@ func (c *config) rewrite(node ast.Node) (ast.Node, error) {
 				tag.Name = strconv.Itoa(maxPlenc)
 
 			}
-			tags.Set(&tag)
-
-			f.Tag.Value = quote(tags.String())
+			// Add the new tag after whatever is there already. The existing
+			// tags are kept exactly as written rather than re-rendered, as
+			// re-rendering loses detail (e.g. json:"-," becomes json:"-",
+			// which means something else).
+			f.Tag.Value = appendTag(f.Tag.Value, tag.String())
 		}
 
 		return true
@@ -264,7 +267,23 @@ func plencValue(tag string) (int, error) {
 }
 
 func quote(tag string) string {
+	if strings.ContainsRune(tag, '`') {
+		return strconv.Quote(tag)
+	}
 	return "`" + tag + "`"
+}
+
+// appendTag adds newTag to an existing struct tag literal (which may be
+// empty, back-quoted or double-quoted)
+func appendTag(lit, newTag string) string {
+	if lit == "" {
+		return quote(newTag)
+	}
+	existing, err := strconv.Unquote(lit)
+	if err != nil || strings.TrimSpace(existing) == "" {
+		return quote(newTag)
+	}
+	return quote(strings.TrimRight(existing, " ") + " " + newTag)
 }
 
 type rewriteErrors []error
